@@ -663,8 +663,11 @@ class Pandas:
         if fname == 'list' and len(args) == 1 and not kwargs:
             a = args[0]
             if a.kind in ('plist', 'lazylist', 'tuple', 'range'):
-                ex.use('axiom:list(xs) has the elements of xs in order')
-                return self.as_plist(ex, st, a)
+                ex.use('axiom:list(xs) is a new list with the elements of xs in order')
+                r = self.as_plist(ex, st, a)
+                if r.f.get('caller'):           # a copy is the callee's own list
+                    r = SV(r.kind, r.t, **{k: v for k, v in r.f.items() if k != 'caller'})
+                return r
         if fname == 'list' and not args and not kwargs:
             return static_list([])
         if fname == 'dict' and not args:
